@@ -108,7 +108,7 @@ def job_curve(env, cfg, pred=None):
     cs = [c for c in discover(env, cfg)["curves"] if pred is None or pred(c)]
     if not cs:
         raise Unsupported()
-    return cs[(env.job_seed // 7) % len(cs)]
+    return cs[(env.job_seed // 3) % len(cs)]
 
 
 def select(env, cfg, prog, cid):
@@ -118,8 +118,17 @@ def select(env, cfg, prog, cid):
     if ctx["cur"] != (key, cid) or r.proc is None or r.proc.poll() is not None or r.ncases + 1 >= r.recycle:
         prog.call("ep_param_set", cid)
         ctx["cur"] = (key, cid)
+        _reset_pcctx(cfg)
         return 1
     return 0
+
+
+def _reset_pcctx(cfg):
+    """a plain curve selection replaces whatever pairing set pcctx had selected"""
+    import sys
+    m = sys.modules.get("engine.pcctx")
+    if m is not None and cfg in m._CACHE:
+        m._CACHE[cfg]["cur"] = None
 
 
 def invalidate(env, cfg):
